@@ -207,6 +207,47 @@ def oracle(ctx, widen=1):
                 if bad:
                     ctx.violation(f"{system} via {label} {form}: {bad}", {"form": list(form), "system": system}, {"kind": "b-matrix", "system": system, "form": label})
     ctx.stream("oracle:metric-tensor", cases, len(kinds))
+    # the same quantities asked of ONE calculation object while its lattice changes (stale state between calls)
+    nseq = ctx.scale(30, 1500) * widen
+    steps = 0
+    for it in range(nseq):
+        ub = UBCalculation("seq")
+        hk = [np.array([ctx.rng.randint(-3, 3), ctx.rng.randint(-3, 3), ctx.rng.randint(1, 3)], float) for _ in range(2)]
+        en = ctx.rng.choice([8.0, 12.0, ctx.rng.uniform(8, 20)])
+        bad = None
+        for step in range(ctx.rng.randint(2, 5)):
+            system = ctx.rng.choice(SYSTEMS)
+            minimal, full = rand_cell(ctx.rng, system)
+            label, form = ctx.rng.choice(call_forms(ctx.rng, system, minimal, full))
+            Gi = np.linalg.inv(metric(full))
+            try:
+                with quiet():
+                    ub.set_lattice("x", *form)
+                    if step % 2 == 1:
+                        ub.set_u(np.eye(3))
+                steps += 1
+                for h in hk:
+                    dref = 1 / math.sqrt(h @ Gi @ h)
+                    d = ub.crystal.get_hkl_plane_distance(tuple(h))
+                    if abs(d - dref) > 1e-9 * dref:
+                        bad = f"after lattice change {step + 1} ({system} via {label}): d{tuple(h)} = {d}, the current cell gives {dref}"; break
+                    wl = 12.39842 / en
+                    if wl / (2 * dref) < 1:
+                        tth = ub.get_ttheta_from_hkl(tuple(h), en)
+                        if abs(wl - 2 * dref * sin(tth / 2)) > 1e-9 * wl:
+                            bad = (f"after lattice change {step + 1} ({system} via {label}): two-theta{tuple(h)} at {en} keV = {degrees(tth):.6f} deg, "
+                                   f"the current cell gives {degrees(2 * math.asin(wl / (2 * dref))):.6f} deg"); break
+                cang = (hk[0] @ Gi @ hk[1]) / math.sqrt((hk[0] @ Gi @ hk[0]) * (hk[1] @ Gi @ hk[1]))
+                ang = ub.crystal.get_hkl_plane_angle(tuple(hk[0]), tuple(hk[1]))
+                if not bad and abs(ang - degrees(math.acos(max(-1, min(1, cang))))) > 1e-6 and abs(math.cos(math.radians(ang)) - cang) > 1e-12:
+                    bad = f"after lattice change {step + 1}: angle between planes is {ang}, the current cell gives {degrees(math.acos(max(-1, min(1, cang))))}"
+            except Exception as e:  # noqa
+                bad = f"after lattice change {step + 1} ({system} via {label}) raised {type(e).__name__}: {str(e)[:80]}"
+            if bad:
+                ctx.violation(f"one UBCalculation object, {bad}", {"hkls": [h.tolist() for h in hk], "energy": en, "last_form": [str(x) for x in form]},
+                              {"kind": "stale-lattice", "what": bad.split(":")[0][:30]})
+                break
+    ctx.stream("oracle:lattice-sequences", steps, nseq)
 
 
 def replay(ctx, data):
